@@ -9,7 +9,7 @@
 (* argument vector, and the module together with the expected outcomes is   *)
 (* exported for replay on the real engine.                                  *)
 (***************************************************************************)
-EXTENDS WasmSem, WasmValidate, Json
+EXTENDS CompileModel, WasmValidate, Json
 
 CONSTANTS Template,   \* module record; the body of function GenIdx is the hole
           GenIdx,     \* 1-based index of the generated function in Template.funcs
@@ -58,7 +58,9 @@ SetAsSeq(S) == CHOOSE s \in [1..Cardinality(S) -> S] : \A x \in S : \E i \in 1..
 
 RunsOf(M) ==
   LET args == SetAsSeq(ArgSets)
-  IN [i \in 1..Len(args) |-> [args |-> args[i], out |-> Outcome(Run(M, EntryIdx, args[i], HostQ, Fuel))]]
+  IN [i \in 1..Len(args) |-> [args |-> args[i], out |-> OutcomeH(M, EntryIdx, args[i], HostQ, Fuel)]]
 
-Export == phase = "done" => PrintT(<<"REPLAY", ToJson([m |-> Module, entry |-> EntryIdx - 1, runs |-> RunsOf(Module)])>>)
+(* the template is printed once, each complete program as its generated body plus expected outcomes *)
+ASSUME PrintT(<<"TEMPLATE", ToJson([m |-> Template, gen |-> GenIdx - 1, entry |-> EntryIdx - 1, hostq |-> HostQ])>>)
+Export == phase = "done" => PrintT(<<"REPLAY", ToJson([body |-> body, runs |-> RunsOf(Module)])>>)
 =============================================================================
